@@ -692,6 +692,17 @@ fn kt_of(a: &AnyEnr) -> &'static str {
 // ------------------------------------------------------------------------------------------------
 
 fn err_json(e: &EnrError) -> Value {
+    // formatting an error value (Display, Debug, source chain, clone, equality) is part of "reporting failures as
+    // error values" (C03): a panic in there counts as a panic of the call
+    let fmt_ok = std::panic::catch_unwind(|| {
+        let src = std::error::Error::source(e).map(|s| s.to_string()).unwrap_or_default();
+        let c = e.clone();
+        format!("{} {:?} {:#?} {}", e, e, c, src).len() > 0 && c == *e
+    })
+    .unwrap_or(false);
+    if !fmt_ok {
+        return json!({"kind": "panic", "err": "error value cannot be formatted", "ret": []});
+    }
     let k = match e {
         EnrError::ExceedsMaxSize => "ExceedsMaxSize",
         EnrError::SequenceNumberTooHigh => "SequenceNumberTooHigh",
